@@ -4,7 +4,7 @@ from ..config import Config
 from ..list_utils import some, get_item
 from .snippets import create_snippet, nest, CSSSnippetProperty, CSSSnippetRaw, CSSSnippetType
 from .score import calculate_score
-from .color import color
+from .color import color, frac
 from .format import stringify
 from .scope import CSSAbbreviationScope
 
@@ -301,7 +301,7 @@ def wrap_with_field(node: CSSValue, config: Config, state: WrapState=None):
         elif isinstance(v, tokens.Literal):
             value.append(tokens.Field(v.value, state.inc()))
         elif isinstance(v, tokens.NumberValue):
-            value.append(tokens.Field(''.join((v.value, v.unit)), state.inc()))
+            value.append(tokens.Field(frac(v.value, 4) + v.unit, state.inc()))
         elif isinstance(v, tokens.StringValue):
             q = '\'' if v.quote == 'single' else '"'
             value.append(tokens.Field(''.join((q, v.value, q)), state.inc()))
